@@ -100,6 +100,11 @@ class Conditional(Scenario):
                 ev["if_range"] = rng.choice(["none", "none", "none", "etag_mine", "etag_other", "date_mine", "date_before", "date_after"])
                 ev["ranges"] = rng.choice(["on", "on", "on", "on", "off", "no_length"])
                 ev["file_pos"] = rng.choice([0, 0, 0, 1, size // 2, size, size + 5])
+                if rng.random() < 0.3:
+                    # validators and a Range in one request
+                    ev["with_cond"] = True
+                    ev["etag_cond"] = rng.choice(["none", "inm_mine", "inm_mine", "inm_list", "inm_star", "inm_other", "inm_weakened", "im_mine", "im_star", "im_other", "im_list"])
+                    ev["date_cond"] = rng.choice(["none", "none", "mine", "mine", "before", "after", "mine_offset"])
             events.append(["req", ev])
         return {
             "size": size,
@@ -208,7 +213,8 @@ class Conditional(Scenario):
             mode = spec.get("mode", "plain")
             exp_status: set = {200}
             exp_range = None
-            if mode == "cond":
+            with_cond = mode == "range" and bool(spec.get("with_cond"))
+            if mode == "cond" or with_cond:
                 ec = spec.get("etag_cond", "none")
                 mine = mem.get("etag")  # (tag, weak) the client saw earlier
                 other = ("v0", False)
@@ -260,7 +266,7 @@ class Conditional(Scenario):
                 else:
                     exp_status = ref.expected_conditional(method, cur, lm if has_lm else None, inm, im, ims)
                 conditional_after_write = conditional_after_write or wrote
-            elif mode == "range":
+            if mode == "range":
                 rs = spec.get("range") if isinstance(spec.get("range"), dict) else {"kind": "malformed", "text": "bytes="}
                 try:
                     environ["HTTP_RANGE"] = ref.render_range(rs)
@@ -296,7 +302,13 @@ class Conditional(Scenario):
                     if False in applies:
                         exp_range.add("200")
                     if method == "HEAD":
-                        exp_range.add("200")
+                        exp_range = {"200"}  # Range is defined for GET only: every other method gets the complete answer
+                if with_cond:
+                    # RFC 9110 13.2.2: the preconditions come first; Range / If-Range are looked at only if the answer is still 200
+                    if 200 not in exp_status:
+                        exp_range = {str(s_) for s_ in exp_status}
+                    else:
+                        exp_range |= {str(s_) for s_ in exp_status if s_ != 200}
                 conditional_after_write = conditional_after_write or wrote
             # ---- the application -------------------------------------------------
             body, passthrough, simfile = self.make_body(case, content)
@@ -362,6 +374,9 @@ class Conditional(Scenario):
                             self.check_body(out, pre, case, "200", produced, content, finished, method, headers, None, where)
                     elif o == "416" and status == 416:
                         ok = True
+                    elif o in ("304", "412") and status == int(o):
+                        ok = True
+                        out.probe("precondition_decided_before_range")
                     elif isinstance(o, tuple) and status == 206:
                         a, b = o[1], o[2]
                         ok = True
@@ -375,7 +390,7 @@ class Conditional(Scenario):
                 if not ok and not out.violations:
                     kind = rs.get("kind")
                     detail = kind + (f"/n={'0' if rs.get('n') == 0 else ('gt-length' if rs.get('n', 0) > len(content) else 'le-length')}" if kind == "suffix" else "")
-                    out.violate(f"{pre}/range-outcome-wrong/range={detail}/if_range={spec.get('if_range', 'none') if 'HTTP_IF_RANGE' in environ else 'none'}/got={status}", f"status {status} (Content-Range {headers.get('content-range')!r}), admissible {sorted(map(str, exp_range))} for {where}")
+                    out.violate(f"{pre}/range-outcome-wrong/range={detail}/if_range={spec.get('if_range', 'none') if 'HTTP_IF_RANGE' in environ else 'none'}/cond={(spec.get('etag_cond', 'none').split('_')[0] + ('+date' if spec.get('date_cond', 'none') != 'none' else '')) if with_cond else 'none'}/method={method}/got={status}", f"status {status} (Content-Range {headers.get('content-range')!r}), admissible {sorted(map(str, exp_range))} for {where}")
             else:
                 if status not in exp_status:
                     which = spec.get("etag_cond", "none") if mode == "cond" else "plain"
